@@ -381,9 +381,11 @@ Definition new_metric_with_exemplars (p : payload) (exs : list (f64 * list lpair
 Inductive live_result := LivePanicLabel | LivePanicOther | LiveOk (d : desc) (labels : list lpair).
 
 (* reserved = "le" for histograms, "quantile" for summaries, none for the other kinds; is_vec: the
-   child is created through WithLabelValues, which validates the values first *)
-Definition new_live (reserved : option str) (is_vec : bool) (ns sub name help : str) (vars : list str)
+   child is created through WithLabelValues, which validates the values first; early: SummaryVec *)
+Definition new_live (reserved : option str) (is_vec early : bool) (ns sub name help : str) (vars : list str)
     (consts : list lpair) (lvs : list str) : live_result :=
+  (* summary.go NewSummaryVec looks for "quantile" among the variable labels before anything else *)
+  if early && (match reserved with Some r => existsb (str_eqb r) vars | None => false end) then LivePanicLabel else
   let d := new_desc (build_fq_name ns sub name) help vars consts in
   if is_vec && (match validate_label_values lvs (Z.of_nat (length vars)) with Some _ => true | None => false end)
   then LivePanicOther
